@@ -4,11 +4,12 @@
 //     pread may (ENV) yield in the middle, return short, or fail with EIO; every request is logged and checked against the size.
 //   * MEDIA: in-memory sparse files with 4K blocks (pread/pwrite(v)/ftruncate/fallocate(punch)/fstat/fiemap or
 //     SEEK_DATA/SEEK_HOLE, open/stat/unlink/truncate/statvfs/opendir); st_blocks and statvfs are scaled (one 4K block counts
-//     as 315 MB) so that the pool's GB-sized water marks are reached with 2-3 blocks; media I/O may (ENV) yield.
+//     as 315 MB) so that the pool's GB-sized water marks are reached with 2-4 blocks; media I/O may (ENV) yield.
 // Actors: readers (own CachedFile handle each, one pread/preadv from a page-boundary alphabet, exact-size heap buffers),
 // an evictor (pool->evict(file) / fill the pool through another file / let 300 virtual seconds pass so that the pool timer
-// and the store TTL fire), then - with no read in flight - optional range punching and optional reuse of the media by a new
-// pool (sync or async scan), then verification reads.
+// and the store TTL fire / prefetch), on a cold cache, a warm cache, or a new pool built on the old pool's media (sync or
+// async scan); sequential scenarios add - with no read in flight - range punching and reuse between two reads.
+// Every execution ends with two whole-file verification reads under the default environment.
 // Oracle: every cached read returns exactly min(len, size-off) bytes equal to fbyte(); -1 only if a source read issued by
 // that very read was made to fail/short; never wrong bytes, never a wrong positive count; no source request beyond the
 // source size; nobody blocked forever; ASan clean.
@@ -129,8 +130,8 @@ struct World {
     // media
     std::map<std::string, std::shared_ptr<Inode>> files; std::set<std::string> dirs;
     // the cache under test
-    ICachedFileSystem* cfs = nullptr; IFileSystem* src = nullptr; IOAlloc alloc{{nullptr, &io_alloc}, {nullptr, &io_dealloc}}; int generation = 0;
-    std::vector<Actor> actors; std::string log; int nyield = 0; bool finishing = false;
+    ICachedFileSystem* cfs = nullptr; IFileSystem* src = nullptr; IOAlloc alloc{{nullptr, &io_alloc}, {nullptr, &io_dealloc}};
+    std::vector<Actor> actors; std::string log; int nyield = 0;
 };
 static World* W;
 
